@@ -347,20 +347,22 @@ def Recver.stop (r : Recver) : Recver × Bool :=
   | .recv | .sizeKnown => if r.stopped then (r, false) else ({ r with stopped := true }, true)
   | _ => (r, false)
 
-/-- `DataStreams::recv_stream_control(ResetStream)` → `Incoming::recv_reset`; the entry is removed from the
-input table first, so after an error nothing is delivered to the stream any more. -/
+/-- `DataStreams::recv_stream_control(ResetStream)` → `Incoming::recv_reset` → `Recv::recv_reset` /
+`SizeKnown::recv_reset`.  The frame is validated FIRST (repair 40fb201): an invalid RESET_STREAM leaves the entry in the
+input table (`gone` unchanged), a valid one removes it.  `Recv`: final size below the largest offset seen ⇒ FINAL_SIZE,
+then final size beyond the advertised limit ⇒ FLOW_CONTROL (repair 2d10252; RFC 9000 §4.5), in that order. -/
 def Recver.rxReset (r : Recver) (final : Nat) : Recver × Except String Nat :=
   if r.gone then (r, .ok 0) else
-  let r : Recver := { r with gone := true }
-  if r.err then (r, .ok 0) else
+  if r.err then ({ r with gone := true }, .ok 0) else
   match r.st with
   | .recv =>
     if final < r.largest then (r, .error "FinalSize")
-    else ({ r with st := .resetRcvd }, .ok (final - r.largest))
+    else if final > r.maxSD then (r, .error "FlowControl")
+    else ({ r with st := .resetRcvd, gone := true }, .ok (final - r.largest))
   | .sizeKnown =>
     if final ≠ r.finalSize then (r, .error "FinalSize")
-    else ({ r with st := .resetRcvd }, .ok 0)
-  | _ => ({ r with panicked := true }, .ok 0)   -- `_ => unreachable!()`
+    else ({ r with st := .resetRcvd, gone := true }, .ok 0)
+  | _ => ({ r with panicked := true }, .ok 0)   -- `_ => unreachable!()` (before the removal)
 
 /-- `Incoming::on_conn_error`. -/
 def Recver.connError (r : Recver) : Recver :=
